@@ -36,7 +36,7 @@ def gen_value(rng, typ, nulls=True):
         return rng.choice([True, False])
     if typ == 'date':
         return datetime.date(rng.choice([1999, 2000, 2020]), rng.randint(1, 12), rng.randint(1, 28))
-    raise ValueError(typ)
+    return rng.choice([0, 'x', True])
 
 
 def gen_resource(rng, name, max_fields=5, max_rows=6, field_pool=None, types=None):
